@@ -119,7 +119,10 @@ def build(spec: Dict[str, Any]) -> Any:
         for name, typ, is_arr, val in e['attrs']:
             vt = dmx.ValueType[typ]
             if is_arr:
-                el[name] = dmx.Attribute.array(name, vt, [conv(typ, x) for x in val])
+                items = [conv(typ, x) for x in val]
+                # the array constructor takes any iterable: a list, a tuple, or an iterator that can be consumed only once
+                arg = items if len(name) % 3 == 0 else tuple(items) if len(name) % 3 == 1 else iter(items)
+                el[name] = dmx.Attribute.array(name, vt, arg)
             elif typ == 'TIME':
                 el[name] = dmx.Attribute.time(name, conv(typ, val))
             else:
